@@ -248,6 +248,32 @@ def check_e2e(ctx, s, env, near=False):
         ctx.case(s, nontrivial=False)
 
 
+def check_nonspecific(ctx, s, env):
+    """`! "<s>"`: PyYAML resolves a scalar with the non-specific tag like a
+    plain one, whatever characters it holds."""
+    from vlib import docs as D
+    text = '! ' + D._esc(s) + '\n'
+    rf, rb = S.is_float12(s), S.is_bool12(s)
+    if rf or rb or S.ref_resolve_plain(s) != S.TAG_STR:
+        return
+    ctx.count('e2e_nonspecific_tag')
+    try:
+        v = env.load_any(text)
+    except Exception as e:      # noqa
+        ctx.violation(
+            'C09 e2e non-float/bool string fails to load %s feature=%s' % (
+                type(e).__name__, feature(s, False, S.is_float12)),
+            'document %r (string %r with the non-specific tag) raised %s: %s'
+            % (text, s, type(e).__name__, str(e)[-150:]), {'s': s, 'ns': 1})
+        return
+    if type(v) is not str or v != s:
+        ctx.violation(
+            'C09 e2e non-float/bool string typed as %s feature=%s' % (
+                type(v).__name__, feature(s, False, S.is_float12)),
+            'document %r (string %r with the non-specific tag) loads as %r'
+            % (text, s, v), {'s': s, 'ns': 1})
+
+
 def outcome(v, exc, verbose=False):
     if exc is not None:
         return type(exc).__name__ + (': %s' % exc if verbose else '')
@@ -358,6 +384,22 @@ def shard(ctx):
         if len(ctx.samples) < 5:
             ctx.sample({'s': s, 'resolved': env.tag_of(s),
                         'ref_float': S.is_float12(s)}, 'near-miss')
+    # values that are not plain scalars reach the same resolver table through
+    # the non-specific tag "!" and through tag stripping below Any: line
+    # breaks around a valid spelling must not be ignored by the patterns
+    valid = [w for w in FLOAT_SEEDS + list(S.BOOL_WORDS)
+             if S.is_float12(w) or S.is_bool12(w)]
+    k = 0
+    for w in valid:
+        for s in (w + '\n', '\n' + w, w + '\r', w + '\r\n', w + '\n\n',
+                  w + '\x85', w + '\u2028', ' ' + w, w + ' ', w + '\t',
+                  w + '\n' + w, w + '\x0b', w + '\x0c'):
+            k += 1
+            if not ctx.mine(k):
+                continue
+            ctx.count('line_break_variants')
+            check_resolver(ctx, s, env)
+            check_nonspecific(ctx, s, env)
     for _ in range(ctx.budget(100000, 1000000)):
         s = random_long(ctx.rng)
         interesting, tag = check_resolver(ctx, s, env)
@@ -371,4 +413,7 @@ def shard(ctx):
 def replay(ctx, case):
     env = get_env()
     check_resolver(ctx, case['s'], env)
-    check_e2e(ctx, case['s'], env)
+    if case.get('ns'):
+        check_nonspecific(ctx, case['s'], env)
+    else:
+        check_e2e(ctx, case['s'], env)
